@@ -206,6 +206,9 @@ fn main() {
         }
         "C11" => {
             umverif::c11::run(&mut rep);
+            umverif::c11::run_timeout_leg(&mut rep, if thorough { 1200 } else { 48 });
+            rep.floor("timeout_leg_scenarios", if thorough { 500 } else { 20 });
+            rep.floor("timeout_leg_commands_queued_during_blocking", 20);
             rep.finish()
         }
         "C13" => {
